@@ -18,6 +18,9 @@
 #include <orc/orconce.h>
 
 #include "orcinternal.h"
+#ifdef ORC_VERIF_HOOKS
+#include <orc/orcverif.h>
+#endif
 
 /**
  * SECTION:orc
@@ -41,14 +44,26 @@ orc_init (void)
 {
   static int inited = FALSE;
 
+#ifdef ORC_VERIF_HOOKS
+  ORC_VERIF_POINT (ORC_VERIF_PT_INIT_READ_FAST);
+#endif
   if (!inited) {
     orc_global_mutex_lock ();
+#ifdef ORC_VERIF_HOOKS
+    ORC_VERIF_POINT (ORC_VERIF_PT_INIT_READ_SLOW);
+#endif
     if (!inited) {
+#ifdef ORC_VERIF_HOOKS
+      ORC_VERIF_POINT (ORC_VERIF_PT_INIT_BODY);
+#endif
       ORC_ASSERT(sizeof(OrcExecutor) == sizeof(OrcExecutorAlt));
 
       _orc_debug_init();
       _orc_compiler_init();
       orc_opcode_init();
+#ifdef ORC_VERIF_HOOKS
+      ORC_VERIF_POINT (ORC_VERIF_PT_INIT_BODY);
+#endif
       orc_c_init();
 #ifdef ENABLE_BACKEND_C64X
       orc_c64x_c_init();
@@ -58,6 +73,9 @@ orc_init (void)
 #endif
 #ifdef ENABLE_BACKEND_SSE
       orc_sse_init();
+#endif
+#ifdef ORC_VERIF_HOOKS
+      ORC_VERIF_POINT (ORC_VERIF_PT_INIT_BODY);
 #endif
 #ifdef ENABLE_BACKEND_AVX
       orc_avx_init();
@@ -74,7 +92,13 @@ orc_init (void)
 #ifdef ENABLE_BACKEND_MIPS
       orc_mips_init();
 #endif
+#ifdef ORC_VERIF_HOOKS
+      ORC_VERIF_POINT (ORC_VERIF_PT_INIT_BODY);
+#endif
 
+#ifdef ORC_VERIF_HOOKS
+      ORC_VERIF_POINT (ORC_VERIF_PT_INIT_WRITE);
+#endif
       inited = TRUE;
     }
     orc_global_mutex_unlock ();
